@@ -1,9 +1,13 @@
 (* C04 - Every reported source location is in bounds, on char boundaries, faithful.
    Proved: the token spans, from which every other span is computed, tile the input
    exactly; each token's text is the input slice at its span (so both ends are char
-   boundaries inside the input).  Event/label spans are compared exactly with the
-   implementation and monitored on it. *)
-From CL Require Import Base.StrLemmas Model.Lexer Model.Parser Proofs.LexerProofs.
+   boundaries inside the input); every span of every parser event ([event_spans]: component,
+   name, alias, note, quantity, value, unit, scaling lock, modifiers, intermediate data,
+   metadata key/value, section name, front matter, text and each of its fragments, diagnostic
+   labels) satisfies [span_ok]; every text fragment is the input slice at its offset.
+   Analysis-stage labels are compared exactly with the implementation and monitored on it. *)
+From CL Require Import Base.StrLemmas Model.Lexer Model.Parser Proofs.LexerProofs
+  Proofs.ParserFM Proofs.ParserTotal Proofs.ParserSpans.
 
 Theorem C04_tokens_tile :
   forall (U : N -> ucls) s off ts, lex_at U s off = Some ts -> concat (map tstr ts) = s.
@@ -29,3 +33,78 @@ Proof.
   rewrite Forall_forall in *. intros t Ht. unfold tok_span, tend. apply sub_span_ok. exact (HL t Ht).
 Qed.
 Print Assumptions C04_token_spans_ok.
+
+(* the offsets computed by the front-matter splitter are character boundaries: the recipe text
+   is a suffix of the input starting at its offset, the YAML text is the input slice at its offset *)
+Theorem C04_frontmatter_located :
+  forall cfg s fm, parse_frontmatter cfg s = Some fm ->
+    (exists pre, s = pre ++ cook_text fm /\ blen pre = cook_off fm) /\ sub s (yaml_text fm) (yaml_off fm).
+Proof. exact parse_frontmatter_located. Qed.
+Print Assumptions C04_frontmatter_located.
+
+(* every span of every event of the pull parser is in bounds, ordered and on character
+   boundaries of the input.  The two hypotheses select the code as it is now (see [pcfg]). *)
+Theorem C04_event_spans_ok :
+  forall (U : N -> ucls) (cfg : pcfg) (s : str) (evs : list pevent),
+    p_strict_escape cfg = false -> p_note_label_old cfg = false ->
+    events U cfg s = Done evs -> Forall (span_ok s) (flat_map event_spans evs).
+Proof. exact event_spans_all_ok. Qed.
+Print Assumptions C04_event_spans_ok.
+
+Theorem C04_meta_event_spans_ok :
+  forall (U : N -> ucls) (cfg : pcfg) (s : str) (evs : list pevent),
+    p_strict_escape cfg = false -> p_note_label_old cfg = false ->
+    meta_events U cfg s = Done evs -> Forall (span_ok s) (flat_map event_spans evs).
+Proof. exact meta_event_spans_all_ok. Qed.
+Print Assumptions C04_meta_event_spans_ok.
+
+(* every fragment of every text of every event is the input slice at its offset (for a soft
+   line break the slice is the newline token, which Text::text renders as one blank) *)
+Theorem C04_fragments_faithful :
+  forall (U : N -> ucls) (cfg : pcfg) (s : str) (evs : list pevent),
+    p_strict_escape cfg = false -> events U cfg s = Done evs ->
+    forall ev t f, In ev evs -> In t (event_texts ev) -> In f (frags t) -> sub s (ftext f) (foff f).
+Proof. exact fragments_faithful. Qed.
+Print Assumptions C04_fragments_faithful.
+
+Theorem C04_meta_fragments_faithful :
+  forall (U : N -> ucls) (cfg : pcfg) (s : str) (evs : list pevent),
+    p_strict_escape cfg = false -> meta_events U cfg s = Done evs ->
+    forall ev t f, In ev evs -> In t (event_texts ev) -> In f (frags t) -> sub s (ftext f) (foff f).
+Proof. exact meta_fragments_faithful. Qed.
+Print Assumptions C04_meta_fragments_faithful.
+
+(* every label of every parse-stage diagnostic *)
+Theorem C04_diag_labels_ok :
+  forall (U : N -> ucls) (cfg : pcfg) (s : str) (evs : list pevent),
+    p_strict_escape cfg = false -> p_note_label_old cfg = false ->
+    events U cfg s = Done evs -> forall d, In (EvDiag d) evs -> Forall (span_ok s) (d_labels d).
+Proof. exact diag_labels_ok. Qed.
+Print Assumptions C04_diag_labels_ok.
+
+Theorem C04_meta_diag_labels_ok :
+  forall (U : N -> ucls) (cfg : pcfg) (s : str) (evs : list pevent),
+    p_strict_escape cfg = false -> p_note_label_old cfg = false ->
+    meta_events U cfg s = Done evs -> forall d, In (EvDiag d) evs -> Forall (span_ok s) (d_labels d).
+Proof. exact meta_diag_labels_ok. Qed.
+Print Assumptions C04_meta_diag_labels_ok.
+
+(* the hypotheses are satisfiable and the conclusion is not vacuous: with the configuration of
+   the current code every input has an event stream *)
+Example C04_hypotheses_satisfiable :
+  exists cfg, p_strict_escape cfg = false /\ p_note_label_old cfg = false /\
+    forall U s, exists evs, events U cfg s = Done evs.
+Proof.
+  set (cfg := {| p_ext := 0; p_debug := true; p_strict_escape := false; p_note_label_old := false; p_fm_anywhere := false |}).
+  exists cfg. split; [reflexivity|]. split; [reflexivity|]. intros U s.
+  destruct (events_ok U cfg s eq_refl) as (evs & E & _). exists evs. exact E.
+Qed.
+
+(* the code before the repair of step.rs:561 (label at `start - 1` in bytes): the label
+   statement is false there, witness "~" U+540D "(x)" whose label (3,3) is inside U+540D *)
+Theorem C04_diag_labels_refuted_old :
+  exists U cfg s evs d sp,
+    p_strict_escape cfg = false /\ p_note_label_old cfg = true /\
+    events U cfg s = Done evs /\ In (EvDiag d) evs /\ In sp (d_labels d) /\ ~ span_ok s sp.
+Proof. exact note_label_old_refuted. Qed.
+Print Assumptions C04_diag_labels_refuted_old.
